@@ -26,6 +26,16 @@ and from every src/*.c of the build: the functions that write conn->domain (assi
   tls_domain_written_in : sorted codes, 1 = _conn_connect (copies the domain of the configured JID), 2 = _conn_reset, 9 = any other
                           function (the name tls_new pins would no longer be the one the user configured)
 
+and three plain facts:
+  tls_set_handler_unconditional : the body of xmpp_conn_set_certfail_handler is exactly `conn->certfail_handler = hndl;`
+                                  (so that setting NULL removes a handler and a later setting replaces an earlier one)
+  tls_time_overrides            : number of calls in tls_openssl.c that change the verification time or verification flags
+                                  (X509_VERIFY_PARAM_set_time, X509_STORE_CTX_set_time, *_set_flags on verify parameters /
+                                  store / store context, SSL_CTX_set1_param, SSL_set1_param): the validity period is checked
+                                  against the real clock
+  tls_secured_only_after_start  : in conn_tls_start the only write of conn->secured is `conn->secured = 1;` as the body of
+                                  `if (tls_start(conn->tls))`, i.e. after the handshake has succeeded
+
 guard codes: 0 unconditional (main flow of tls_new), 1 = if (conn->tls_trust), 2 = if (!conn->tls_trust) or the
 else branch of 1, 9 = anything else (makes Gen_tls_ok fail).  callback codes: 0 NULL, 1 _tls_verify, 9 other.
 """
@@ -442,6 +452,17 @@ def generate():
     legacy = failure_reaction("src/conn.c", r"void conn_established\s*\(\s*xmpp_conn_t \*\s*conn\s*\)",
                               r"conn_tls_start ?\( ?conn ?\) ?!= ?0", False)
 
+    conn_c = re.sub(r"\s+", " ", T.strip_comments(T.read_src("src/conn.c")))
+    setter = func_body(conn_c, r"void xmpp_conn_set_certfail_handler\s*\([^)]*\)").replace(" ", "")
+    setter_ok = setter == "conn->certfail_handler=hndl;"
+    time_calls = len(calls(own, ["X509_VERIFY_PARAM_set_time", "X509_STORE_CTX_set_time", "X509_VERIFY_PARAM_set_flags",
+                                 "X509_VERIFY_PARAM_clear_flags", "X509_STORE_set_flags", "X509_STORE_CTX_set_flags",
+                                 "SSL_CTX_set1_param", "SSL_set1_param", "X509_STORE_CTX_set0_param", "X509_STORE_set1_param"]))
+    cts = func_body(conn_c, r"int conn_tls_start\s*\(\s*xmpp_conn_t \*\s*conn\s*\)")
+    sec_writes = re.findall(r"->secured\s*(?:[-+|&^]?=(?!=)|\+\+|--)", cts)
+    sec_ok = (len(sec_writes) == 1 and
+              re.search(r"if \( ?tls_start ?\( ?conn->tls ?\) ?\) ?\{ ?conn->secured = 1; ?\}", cts) is not None)
+
     out = T.HEADER % "src/tls_openssl.c (through gcc -E), src/auth.c, src/conn.c"
     out += "(* (guard, mode, callback) of every SSL_set_verify / SSL_CTX_set_verify call in tls_new, in order *)\n"
     out += "Definition tls_verify_calls : list (Z * Z * Z) := [%s].\n\n" % "; ".join("(%d, %d, %d)" % c for c in vcalls)
@@ -457,6 +478,9 @@ def generate():
     out += "(* what the callers do when conn_tls_start failed *)\n"
     out += "Definition tls_proceed_failure_calls : list Z := [%s].\n" % "; ".join(str(c) for c in proceed)
     out += "Definition tls_legacy_failure_calls : list Z := [%s].\n\n" % "; ".join(str(c) for c in legacy)
+    out += "Definition tls_set_handler_unconditional : bool := %s.\n" % ("true" if setter_ok else "false")
+    out += "Definition tls_time_overrides : Z := %d.\n" % time_calls
+    out += "Definition tls_secured_only_after_start : bool := %s.\n\n" % ("true" if sec_ok else "false")
     out += "(* the functions that write conn->domain: 1 = _conn_connect, 2 = _conn_reset, 9 = any other *)\n"
     out += "Definition tls_domain_written_in : list Z := [%s].\n" % "; ".join(str(c) for c in domain_writers())
     return out
